@@ -715,23 +715,24 @@ Proof.
     + rewrite <- H1 at 1. symmetry. apply firstn_skipn.
 Qed.
 
-Definition sslack (s : mem * list N) : nat := match snd s with [] => 0%nat | _ :: _ => 1%nat end.
+Definition sslack (s : mem * list N) : nat := length (snd s).
 
-Lemma gm_read_volatile_from_lemma m M addr src count : inv (shape M) -> count < W64 -> addr < W64 -> lenN src < W64 ->
-  exists M' k, gm_read_volatile_from find m M addr src count =
+Lemma gm_read_volatile_from_lemma m M addr chunk src count : inv (shape M) -> count < W64 -> addr < W64 -> lenN src < W64 ->
+  0 < chunk ->
+  exists M' k, gm_read_volatile_from find m M addr chunk src count =
                Val ((M', skipn (N.to_nat k) src), stream_result (shape M) addr k) /\
     is_run (shape M) addr (N.min count (lenN src)) k /\ shape M' = shape M /\
     forall x, x < W64 -> rd M' x = if in_range addr k x then nth_error src (N.to_nat (x - addr)) else rd M x.
 Proof.
-  intros HL Hcnt Haddr Hsrc.
+  intros HL Hcnt Haddr Hsrc Hchunk.
   assert (Hwf : wf_layout_gen (shape M)) by (apply inv_wf; exact HL).
   set (f := fun (ms : mem * list N) (_x len caddr : N) (i : nat) =>
-         let rr := reg_read_volatile_from (nth i (fst ms) dummy) caddr (snd ms) len in
+         let rr := reg_read_volatile_from (nth i (fst ms) dummy) caddr chunk (snd ms) len in
          @Val ((mem * list N) * res N) ((upd_nth (fst ms) i (fst (fst rr)), snd (fst rr)), snd rr)).
   set (I := fun (ms : mem * list N) (k : N) => shape (fst ms) = shape M /\ snd ms = skipn (N.to_nat k) src /\ k <= lenN src /\
      forall x, x < W64 -> rd (fst ms) x = if in_range addr k x then nth_error src (N.to_nat (x - addr)) else rd M x).
   destruct (try_access_spec find inv inv_wf find_spec (St := mem * list N) m (shape M) count addr f I
-               (fun _ k => k = lenN src) sslack HL Hcnt Haddr) with (fuel := S (S (length M))) (s := (M, src)) (k := 0)
+               (fun _ k => k = lenN src) sslack HL Hcnt Haddr) with (fuel := S (S (length M + length src))) (s := (M, src)) (k := 0)
     as ([M' rest] & k' & E & (HS & Hrest & Hks & HR) & Hk & Hrun & Hstop).
   - intros [M1 s1] k i (HS & Hs1 & Hks & HR) Hk Hcur F. cbn [fst snd] in *. cbv zeta. unfold f. cbn [fst snd].
     pose proof (proj1 (fS (shape M) (addr + k) i HL Hcur) F) as [Hi Hr]. rewrite shape_length in Hi.
@@ -743,7 +744,7 @@ Proof.
     assert (Hl1 : lenN s1 = lenN src - k) by (rewrite Hs1; apply lenN_skipn; exact Hks).
     unfold reg_read_volatile_from. destruct (N.ltb_spec (rlen r) (addr + k - rstart r)) as [Hbad|_]; [lia|].
     cbn [fst snd].
-    set (n := N.min (N.min (rlen r - (addr + k - rstart r)) len) (lenN s1)).
+    set (n := N.min (N.min (N.min (rlen r - (addr + k - rstart r)) len) chunk) (lenN s1)).
     eexists (_, _), n. split; [reflexivity|]. split; [unfold n; lia|]. split; [|split; [|split]].
     + unfold I. cbn [fst snd]. split; [|split; [|split]].
       * rewrite shape_upd; [exact HS| |]; apply set_bytes_shape; apply write_at_length.
@@ -765,20 +766,15 @@ Proof.
            ++ apply in_range_false in R2. replace (in_range addr (k + n) x) with false by (symmetry; apply in_range_false; lia).
               reflexivity.
     + intros Hn0 Hlen. unfold n, len in *. lia.
-    + intros Hn0 Hnl. unfold sslack. cbn [snd].
-      assert (Hex : n = lenN s1) by (unfold n, len in *; lia).
-      assert (Hsk : skipn (N.to_nat n) s1 = []) by (apply skipn_all2; unfold lenN in Hex; lia).
-      rewrite Hsk. destruct s1 as [|c0 ct]; [unfold lenN in Hex; cbn in Hex; lia|lia].
-    + intros Hnl. unfold sslack. cbn [snd].
-      destruct (skipn (N.to_nat n) s1) as [|c0 ct] eqn:Esk; [lia|].
-      destruct s1 as [|d0 dt]; [rewrite skipn_nil in Esk; discriminate|lia].
+    + intros Hn0 Hnl. unfold sslack. cbn [snd]. rewrite skipn_length.
+      assert (n <= lenN s1) by (unfold n; lia). unfold lenN in *. lia.
+    + intros Hnl. unfold sslack. cbn [snd]. rewrite skipn_length. lia.
   - cbn [fst snd]. split; [reflexivity|]. split; [reflexivity|]. split; [lia|].
     intros x Hx. replace (in_range addr 0 x) with false; [reflexivity|]. symmetry. apply in_range_false. lia.
   - lia.
   - lia.
   - intros x Hx. lia.
-  - pose proof (msr_bound (shape M) (addr + 0)). rewrite shape_length in *.
-    assert (sslack (M, src) <= 1)%nat by (unfold sslack; cbn [snd]; destruct src; lia). lia.
+  - pose proof (msr_bound (shape M) (addr + 0)). rewrite shape_length in *. unfold sslack. cbn [snd]. lia.
   - rewrite N.add_0_r in E. cbn [fst snd] in *. exists M', k'. split; [rewrite Hrest in E; exact E|].
     split; [|split; [exact HS|exact HR]].
     split; [lia|]. split; [exact Hrun|]. destruct Hstop as [Hs|[Hs|[Hs|Hs]]]; auto; left; lia.
@@ -832,10 +828,10 @@ Definition flat_step (L : layout) (op : bop) (F : fmem) : fmem * fobs :=
       if atomic_okb L a (lenN val) then (fl_put F a val, f_ok []) else (F, f_atomic_err F a)
   | BLoad sz a =>
       if atomic_okb L a sz then (F, f_ok (fl_gets F a sz)) else (F, f_atomic_err F a)
-  | BReadVolFrom src cnt a =>
+  | BReadVolFrom _ src cnt a =>
       let k := fl_run F a (N.min cnt (lenN src)) in
       (fl_put F a (firstn (N.to_nat k) src), f_stream F a k (skipn (N.to_nat k) src))
-  | BReadExactVolFrom src cnt a =>
+  | BReadExactVolFrom _ src cnt a =>
       let k := fl_run F a (N.min cnt (lenN src)) in
       (fl_put F a (firstn (N.to_nat k) src), f_stream_exact F a cnt k (skipn (N.to_nat k) src))
   | BWriteVolTo dst cnt a =>
@@ -857,7 +853,7 @@ Definition op_wf (op : bop) : Prop :=
   | BReadObj sz a => a < W64 /\ sz < W64
   | BStore v a => a < W64 /\ 0 < lenN v /\ lenN v < W64
   | BLoad sz a => a < W64 /\ 0 < sz /\ sz < W64
-  | BReadVolFrom s c a | BReadExactVolFrom s c a => a < W64 /\ c < W64 /\ lenN s < W64
+  | BReadVolFrom ch s c a | BReadExactVolFrom ch s c a => a < W64 /\ c < W64 /\ lenN s < W64 /\ 0 < ch
   | BWriteVolTo d c a | BWriteAllVolTo d c a => a < W64 /\ c < W64
   end.
 
@@ -1006,7 +1002,7 @@ Lemma step_refines m M op : wf_layout_gen (shape M) -> op_wf op ->
   shape (fst (step_C03 m M op)) = shape M /\
   s_mem (snd (step_C03 m M op)) = to_smem (fst (step_C03 m M op)).
 Proof.
-  intros Hwf Hop. destruct op as [buf a|buf a|buf a|buf a|buf a|sz a|val a|sz a|src cnt a|src cnt a|dst cnt a|dst cnt a];
+  intros Hwf Hop. destruct op as [buf a|buf a|buf a|buf a|buf a|sz a|val a|sz a|ch src cnt a|ch src cnt a|dst cnt a|dst cnt a];
     cbn [op_wf] in Hop; cbn [step_C03 flat_step].
   - (* write *)
     destruct Hop as [Ha Hb]. destruct buf as [|b0 bt]; [cbn; auto|]. set (buf := b0 :: bt) in *.
@@ -1090,14 +1086,14 @@ Proof.
       * destruct (find_lin (shape M) a) as [i|] eqn:F; [reflexivity|].
         apply (lin_None_iff _ _ Hwf Ha) in F. apply Hinv in F. discriminate.
   - (* read_volatile_from *)
-    destruct Hop as (Ha & Hc & Hs).
-    destruct (gm_read_volatile_from_lemma LIN wf_layout_gen idwf linspec m M a src cnt Hwf Hc Ha Hs) as (M' & k & E & Hrun & HS & HR).
+    destruct Hop as (Ha & Hc & Hs & Hch).
+    destruct (gm_read_volatile_from_lemma LIN wf_layout_gen idwf linspec m M a ch src cnt Hwf Hc Ha Hs Hch) as (M' & k & E & Hrun & HS & HR).
     rewrite E. cbn [fst snd]. rewrite (fl_run_eq M a _ k Hwf Ha Hrun).
     split; [apply strip_stream; assumption|]. split; [|split; [exact HS|auto]].
     apply rd_put_all; try assumption; [exact (is_run_top _ _ _ _ Hwf Ha Hrun)|]. destruct Hrun as (Hk & _). lia.
   - (* read_exact_volatile_from *)
-    destruct Hop as (Ha & Hc & Hs). unfold gm_read_exact_volatile_from.
-    destruct (gm_read_volatile_from_lemma LIN wf_layout_gen idwf linspec m M a src cnt Hwf Hc Ha Hs) as (M' & k & E & Hrun & HS & HR).
+    destruct Hop as (Ha & Hc & Hs & Hch). unfold gm_read_exact_volatile_from.
+    destruct (gm_read_volatile_from_lemma LIN wf_layout_gen idwf linspec m M a ch src cnt Hwf Hc Ha Hs Hch) as (M' & k & E & Hrun & HS & HR).
     rewrite E. cbn [bind fst snd]. rewrite (fl_run_eq M a _ k Hwf Ha Hrun).
     split; [apply strip_stream_exact; assumption|]. split; [|split; [exact HS|auto]].
     apply rd_put_all; try assumption; [exact (is_run_top _ _ _ _ Hwf Ha Hrun)|]. destruct Hrun as (Hk & _). lia.
@@ -1136,7 +1132,7 @@ Proof.
   assert (Hg : forall a k, fl_gets F1 a k = fl_gets F2 a k).
   { intros a k. unfold fl_gets. apply map_ext. intros j. rewrite H. reflexivity. }
   assert (Hp : forall a src x, fl_put F1 a src x = fl_put F2 a src x) by (intros a src x; unfold fl_put; rewrite H; reflexivity).
-  destruct op as [buf a|buf a|buf a|buf a|buf a|sz a|val a|sz a|src cnt a|src cnt a|dst cnt a|dst cnt a]; cbn [flat_step];
+  destruct op as [buf a|buf a|buf a|buf a|buf a|sz a|val a|sz a|ch src cnt a|ch src cnt a|dst cnt a|dst cnt a]; cbn [flat_step];
     try (destruct buf as [|b0 bt]; [split; [reflexivity|exact H]|]);
     try (destruct (sz =? 0); [split; [reflexivity|exact H]|]);
     try (destruct (atomic_okb L a _));
@@ -1337,7 +1333,7 @@ Proof.
     assert (Y : to_smem M' = s_put (to_smem M) 0 []) by (apply (mem_check M M' 0 [] Hwf S3); intros x; rewrite fl_put_nil; apply HR).
     assert (Z : to_smem M = s_put (to_smem M) 0 []) by (apply (mem_check M M 0 [] Hwf eq_refl); intros x; rewrite fl_put_nil; reflexivity).
     rewrite S4, Y, <- Z. apply smem_eqb_refl. }
-  destruct op as [buf a|buf a|buf a|buf a|buf a|sz a|val a|sz a|src cnt a|src cnt a|dst cnt a|dst cnt a];
+  destruct op as [buf a|buf a|buf a|buf a|buf a|sz a|val a|sz a|ch src cnt a|ch src cnt a|dst cnt a|dst cnt a];
     cbn [op_wf] in Hop; cbn [flat_step] in S1, S2; cbn [ok_step]; rewrite ?slen_lenN, ?run_fl by exact Hwf;
     unfold takeN, dropN; rewrite ?s_gets_fl.
   - (* write *) destruct buf as [|b0 bt]; cbn [fst snd] in S1, S2.
@@ -1389,7 +1385,7 @@ Proof.
       rewrite (strip_data _ _ S1). cbn [snd f_ok]. apply leqb_refl.
     + assert (Hk2 : s_k o = 2) by (unfold strip, f_atomic_err in S1; congruence). rewrite Hk2. change (2 =? 1) with false. change (2 =? 2) with true. cbv iota. cbn [andb].
       rewrite AB. reflexivity.
-  - (* read_volatile_from *) destruct Hop as (Ha & Hc & Hs). cbn [fst snd] in S1, S2.
+  - (* read_volatile_from *) destruct Hop as (Ha & Hc & Hs & Hch). cbn [fst snd] in S1, S2.
     rewrite (mem_part o M M' a _ Hwf S3 S4 S2). rewrite (strip_data _ _ S1).
     assert (D : snd (f_stream (rd M) a (fl_run (rd M) a (N.min cnt (lenN src)))
                        (skipn (N.to_nat (fl_run (rd M) a (N.min cnt (lenN src)))) src))
@@ -1397,7 +1393,7 @@ Proof.
     { unfold f_stream. destruct (_ =? 0); [destruct (fl_mapped _ _)|]; reflexivity. }
     rewrite D, leqb_refl. cbn [andb]. destruct (N.eqb_spec (N.min cnt (lenN src)) 0) as [Hz|Hnz]; [reflexivity|].
     apply (res_count_stream _ _ _ _ _ (fun Hk => run0_unmapped M a (N.min cnt (lenN src)) Hwf Ha ltac:(lia) Hk) S1).
-  - (* read_exact_volatile_from *) destruct Hop as (Ha & Hc & Hs). cbn [fst snd] in S1, S2.
+  - (* read_exact_volatile_from *) destruct Hop as (Ha & Hc & Hs & Hch). cbn [fst snd] in S1, S2.
     rewrite (mem_part o M M' a _ Hwf S3 S4 S2). rewrite (strip_data _ _ S1).
     assert (D : snd (f_stream_exact (rd M) a cnt (fl_run (rd M) a (N.min cnt (lenN src)))
                        (skipn (N.to_nat (fl_run (rd M) a (N.min cnt (lenN src)))) src))
